@@ -888,7 +888,7 @@ def rule_comment_safe_writes(cm, rep, rid):
                           'text becomes code' % (L.describe(bad[0][1])[:80], bad[1]), f.loc(call))
         else:
             rep.ok(rid, key, 'only whole comment lines are written', f.loc(call))
-    rep.minimum('debug writers', n, 2)
+    rep.minimum('debug writers', n, 1)
     # header
     for mname, h, pos, ms in hole_table(cm):
         if pos != 'comment' or not isinstance(h, Hole):
@@ -917,6 +917,70 @@ def rule_flags_only_comments(cm, rep, rid):
     rep.rule(rid, 'statements that depend on a debug flag only call a debug writer, and the alternatives of the header template '
                   'differ only in comment and blank lines')
     n = 0
+    writer_cache = {}
+
+    def callee_of(f, call):
+        fn = call.func
+        if isinstance(fn, ast.Name):
+            r = cm.repo.resolve_name(f, fn.id)
+            return r[1] if r and r[0] in ('func', 'nested') else None
+        if is_self_attr(fn) and f.cls is not None:
+            return cm.repo.lookup_method(f.cls, fn.attr)
+        return None
+
+    def is_debug_writer(g):
+        """a function that only writes debug output: no value returned, every statement debug-only"""
+        if g.qname in writer_cache:
+            return writer_cache[g.qname]
+        writer_cache[g.qname] = False
+        ok = not g.is_generator and all(not (isinstance(x, ast.Return) and x.value is not None and not (isinstance(x.value, ast.Constant) and x.value.value is None))
+                                        for x in own_nodes(g.node)) and debug_only(g.node.body, g, set()) is None
+        writer_cache[g.qname] = ok
+        return ok
+
+    def debug_only(stmts, f, region_ids):
+        """-> the first statement that is not debug-only, or None; locals assigned here must not be used outside"""
+        for b in stmts:
+            if isinstance(b, ast.Expr) and isinstance(b.value, ast.Constant):
+                continue
+            if isinstance(b, ast.Expr) and isinstance(b.value, ast.Call):
+                t = norm(b.value.func)
+                if t.endswith('_debug') or t.endswith('.write'):
+                    continue
+                c = callee_of(f, b.value)
+                if c is not None and c is not f and is_debug_writer(c):
+                    continue
+                return b
+            if isinstance(b, (ast.Pass,)):
+                continue
+            if isinstance(b, ast.Return) and (b.value is None or (isinstance(b.value, ast.Constant) and b.value.value is None)):
+                continue
+            if isinstance(b, (ast.Assign, ast.AugAssign)):
+                tg = b.targets if isinstance(b, ast.Assign) else [b.target]
+                if all(isinstance(t, ast.Name) for t in tg):
+                    continue            # checked below: the local is only used inside the region
+                return b
+            if isinstance(b, ast.If):
+                r = debug_only(b.body, f, region_ids) or debug_only(b.orelse, f, region_ids)
+                if r is not None:
+                    return r
+                continue
+            if isinstance(b, ast.For) and isinstance(b.target, ast.Name):
+                r = debug_only(b.body, f, region_ids)
+                if r is not None:
+                    return r
+                continue
+            return b
+        return None
+
+    def region_locals_escape(f, region):
+        names = {t.id for b in region for x in ast.walk(b) if isinstance(x, (ast.Assign, ast.AugAssign, ast.For))
+                 for t in ast.walk(x.targets[0] if isinstance(x, ast.Assign) else x.target) if isinstance(t, ast.Name)}
+        inside = {id(x) for b in region for x in ast.walk(b)}
+        for x in own_nodes(f.node):
+            if isinstance(x, ast.Name) and x.id in names and id(x) not in inside:
+                return x
+        return None
     for f in cm.repo.all_functions(('yp_generator', 'yp_prolog_visitor', 'compiler')):
         if f.name in ('_set_debug_options', 'main'):
             continue
@@ -924,24 +988,28 @@ def rule_flags_only_comments(cm, rep, rid):
             if isinstance(s, ast.If) and re.search(r'\bdebug_\w+', norm(s.test)):
                 n += 1
                 key = '%s:if %s' % (f.qname, norm(s.test))
-                bad = None
-                for b in s.body + s.orelse:
-                    if isinstance(b, ast.Expr) and isinstance(b.value, ast.Call):
-                        t = norm(b.value.func)
-                        if t.endswith('_debug') or t.endswith('.write'):
-                            continue
-                    if isinstance(b, ast.Assign) and f.name == 'generate':
-                        continue        # the header alternatives, compared below
-                    if isinstance(b, ast.Assign) and all(isinstance(t, ast.Name) for t in b.targets):
-                        # a local that is only used inside the guarded block
-                        names = {t.id for t in b.targets}
-                        inside = {id(x) for bb in s.body + s.orelse for x in ast.walk(bb)}
-                        outside = [x for x in own_nodes(f.node) if isinstance(x, ast.Name) and x.id in names and id(x) not in inside]
-                        if not outside:
-                            continue
-                    if isinstance(b, ast.Assign) and all(isinstance(x, (ast.Constant, ast.JoinedStr)) for x in [b.value]):
-                        continue
-                    bad = b
+                if f.name == 'generate' and all(isinstance(b, ast.Assign) for b in s.body + s.orelse):
+                    rep.ok(rid, key, 'header alternatives (compared below)', f.loc(s))
+                    continue
+                parent_body = getattr(getattr(s, '_parent', None), 'body', [])
+                guard = (len(s.body) == 1 and isinstance(s.body[0], ast.Return) and not s.orelse and s in f.node.body and
+                         (s.body[0].value is None or (isinstance(s.body[0].value, ast.Constant) and s.body[0].value.value is None)))
+                if guard:
+                    # "if not flag: return" - everything after it in the function depends on the flag
+                    region = f.node.body[f.node.body.index(s) + 1:]
+                    value_returns = [x for x in own_nodes(f.node) if isinstance(x, ast.Return) and x.value is not None and
+                                     not (isinstance(x.value, ast.Constant) and x.value.value is None)]
+                    bad = debug_only(region, f, set()) or (value_returns[0] if value_returns else None)
+                else:
+                    region = s.body + s.orelse
+                    bad = debug_only(region, f, set())
+                    if bad is None:
+                        rets = [x for b in region for x in ast.walk(b) if isinstance(x, ast.Return)]
+                        bad = rets[0] if rets else None
+                if bad is None:
+                    esc = region_locals_escape(f, region)
+                    if esc is not None:
+                        bad = esc
                 if bad is not None:
                     rep.violation(rid, key, 'a debug flag controls %s, which is not a debug write: the option changes the generated code' % norm(bad)[:60], f.loc(bad))
                 else:
@@ -1038,28 +1106,51 @@ def rule_tracer_transparent(cm, rep, rid):
         raise AnalysisError('unexpected shape of the tracing wrapper')
     w = inner[0]
     key = w.qname
-    res = None
-    bad = None
-    for s in w.node.body:
-        if isinstance(s, ast.Assign) and isinstance(s.value, ast.Call) and is_name(s.value.func, 'attr') and isinstance(s.targets[0], ast.Name):
-            star = [a for a in s.value.args if isinstance(a, ast.Starred)]
-            kw = [k for k in s.value.keywords if k.arg is None]
-            if len(star) == 1 and len(s.value.args) == 1 and len(kw) == 1:
-                res = s.targets[0].id
+    a = w.node.args
+    protected = {x.arg for x in a.args} | ({a.vararg.arg} if a.vararg else set()) | ({a.kwarg.arg} if a.kwarg else set())
+    state = dict(res=None, bad=None, calls=0, returned=False)
+
+    def is_wrapped_call(v):
+        if not (isinstance(v, ast.Call) and is_name(v.func, 'attr')):
+            return False
+        star = [x for x in v.args if isinstance(x, ast.Starred)]
+        kw = [k for k in v.keywords if k.arg is None]
+        return len(star) == 1 and len(v.args) == 1 and len(kw) == 1 and len(v.keywords) == 1
+
+    def walk(stmts):
+        for s in stmts:
+            if isinstance(s, ast.Assign) and isinstance(s.value, ast.Call) and is_name(s.value.func, 'attr'):
+                if is_wrapped_call(s.value) and len(s.targets) == 1 and isinstance(s.targets[0], ast.Name) and state['res'] is None:
+                    state['res'] = s.targets[0].id
+                    state['calls'] += 1
+                else:
+                    state['bad'] = state['bad'] or s
+            elif isinstance(s, ast.Expr) and isinstance(s.value, ast.Call) and norm(s.value.func).endswith('_debug'):
+                continue
+            elif isinstance(s, ast.AugAssign) and is_self_attr(s.target) and 'indent' in s.target.attr:
+                continue
+            elif isinstance(s, ast.Assign) and all(isinstance(t, ast.Name) and t.id not in protected and t.id != state['res'] for t in s.targets) and \
+                    not any(isinstance(x, ast.Call) and is_name(x.func, 'attr') for x in ast.walk(s.value)):
+                continue                # a local used for the trace messages
+            elif isinstance(s, ast.Return):
+                state['returned'] = True
+                if is_wrapped_call(s.value) and state['res'] is None:
+                    state['res'] = '<returned directly>'
+                    state['calls'] += 1
+                elif not (state['res'] and is_name(s.value, state['res'])):
+                    state['bad'] = state['bad'] or s
+            elif isinstance(s, ast.Expr) and isinstance(s.value, ast.Constant):
+                continue
+            elif isinstance(s, ast.Try) and not s.handlers and not s.orelse:
+                walk(s.body)
+                walk(s.finalbody)
+            elif isinstance(s, ast.Pass):
+                continue
             else:
-                bad = s
-        elif isinstance(s, ast.Expr) and isinstance(s.value, ast.Call) and norm(s.value.func).endswith('_debug'):
-            continue
-        elif isinstance(s, ast.AugAssign) and is_self_attr(s.target) and 'indent' in s.target.attr:
-            continue
-        elif isinstance(s, ast.Return):
-            if not (res and is_name(s.value, res)):
-                bad = s
-        elif isinstance(s, ast.Expr) and isinstance(s.value, ast.Constant):
-            continue
-        else:
-            bad = s
-    if bad is None and res:
+                state['bad'] = state['bad'] or s
+    walk(w.node.body)
+    res, bad = state['res'], state['bad']
+    if bad is None and res and state['calls'] == 1 and state['returned']:
         rep.ok(rid, key, 'calls the visit method with the same arguments and returns its result unchanged', w.loc())
     else:
         rep.violation(rid, key, 'the tracing wrapper does more than tracing (%s): visiting with and without --debug-parser can differ' % (norm(bad)[:60] if bad is not None else 'result not returned'), w.loc(bad) if bad is not None else w.loc())
